@@ -46,6 +46,7 @@ type TestApp struct {
 	ValAddr sdk.ValAddress
 	Height  int64
 	Time    time.Time
+	ChainID string
 }
 
 func newBareApp() (*c4eapp.App, c4eapp.GenesisState) {
@@ -142,6 +143,7 @@ func NewTestApp(o GenOpts) *TestApp {
 
 func (ta *TestApp) header(t time.Time) tmproto.Header {
 	return tmproto.Header{
+		ChainID:            ta.ChainID,
 		Height:             ta.Height + 1,
 		Time:               t,
 		AppHash:            ta.App.LastCommitID().Hash,
